@@ -23,6 +23,7 @@ import (
 	"encoding/json"
 	"fmt"
 	"math"
+	"regexp"
 	"strconv"
 	"strings"
 
@@ -677,12 +678,41 @@ func report(ctx *core.Ctx, c *pcase, rec record) error {
 		shape = "ranges"
 	}
 	key := fmt.Sprintf("pagetree/%s/%s/pages=%s/api=%s", cl, shape, sizeClass(pages), apis)
+	if strings.HasPrefix(rec.Err, "panic:") {
+		// a panic of the library is its own class, identified by its message
+		key = "pagetree/panic/" + panicClass(rec.Err)
+	}
 	what := fmt.Sprintf("pagetree.Writer, PDF %s, %d pages, %d ranges: clause %q of the page-tree property is rejected by Trace_PageTree", c.Version, pages, ranges, cl)
 	if rec.Err != "" {
 		what += " (" + rec.Err + ")"
 	}
 	ctx.Violation(key, what, c)
 	return nil
+}
+
+var reRange = regexp.MustCompile(`invalid subtree node range (\d+), (\d+)`)
+
+// panicClass names a panic by its message with the numbers abstracted:
+// mergeNodes' "invalid subtree node range a, b" becomes the width b-a.
+func panicClass(msg string) string {
+	if m := reRange.FindStringSubmatch(msg); m != nil {
+		a, _ := strconv.Atoi(m[1])
+		b, _ := strconv.Atoi(m[2])
+		return fmt.Sprintf("mergeNodes-invalid-subtree-node-range/width=%d", b-a)
+	}
+	msg = strings.TrimPrefix(msg, "panic: ")
+	if len(msg) > 50 {
+		msg = msg[:50]
+	}
+	return strings.Map(func(r rune) rune {
+		if r >= '0' && r <= '9' {
+			return -1
+		}
+		if r == ' ' {
+			return '-'
+		}
+		return r
+	}, msg)
 }
 
 func caseKey(c *pcase) string {
